@@ -43,10 +43,14 @@ man = dict(
                baseline_off_cmd="cd /repo && /venv/bin/python -m pytest -ra -q -p no:cacheprovider --timeout=900 --continue-on-collection-errors",
                source_commits=[], add_only=True),
     engines=[dict(name="pvx", path="pvx/", serves_properties=[c["property_id"] for c in checks],
-                  kind_free_text="contract-directed symbolic execution of the real pyins function objects on sympy reals / z3 terms / free-algebra words / an uninterpreted operation DAG; sidecar contracts; obligations discharged by a fraction-field normal form (sympy polys), z3, cvc5; CPython cross-check and native replay")],
+                  kind_free_text="contract-directed symbolic execution of the real pyins function objects on sympy reals / z3 terms / free-algebra words / an uninterpreted operation DAG; sidecar contracts; obligations discharged by a fraction-field normal form (sympy polys), interval arithmetic (mpmath.iv), z3 (every unsat re-run through cvc5 in the thorough tier), word normal forms, an AST freshness analysis; value-dependent branches explored path by path with native witnesses; history obligations (second call in the same world); CPython cross-check and native replay of every refutation"),
+             dict(name="lean-induction", path="lean/Induction.lean", serves_properties=["C02", "C09", "C10", "C11", "C12"],
+                  kind_free_text="Lean 4 + Mathlib proofs of the induction steps from the per-iteration obligations to the whole-run statements (loop rule, termination from a lexicographic variant, chunking independence of a fold, exactly-once from the cursor invariant); re-checked by `lean` in the thorough tier (Cxx.induction.mechanised)"),
+             dict(name="bounded-standins", path="props/forms.py, props/C19.py (module_purity), pvx/isolated.py", serves_properties=[c["property_id"] for c in checks],
+                  kind_free_text="bounded native contracts, labelled bounded in the evidence and never counted as discharged: argument-form battery, dynamic purity contract against pristine process states, differential tests of rebound external names, float64 stand-ins of the clauses a real-arithmetic proof cannot see")],
     checks=checks,
     not_applicable=na,
-    notes="Contract-based deductive verification; no Python deductive verifier is installed, so the VC generator is built here (DESIGN.md section 1). Exit codes: 0 held, 1 VIOLATION, 2 undecided, 3 checker error.")
+    notes="Contract-based deductive verification; no Python deductive verifier is installed, so the VC generator is built here (DESIGN.md section 1). Exit codes: 0 held, 1 VIOLATION, 2 undecided, 3 checker error. DESIGN.md sections 10-12 are the build reports (first build, harder seeds + harmless refactorings, dependency defects + correct optimisations); KNOWN_FINDINGS.txt lists the genuine defects (fixed: F1-F8, F12-F15 as `fix:` commits in /repo; known: F9-F11). Self-tests: `./check selftest` (114 seeded defects must exit 1, 43 harmless patches must exit 0), tools/harmless_matrix.sh (every harmless patch against all 19 checks).")
 json.dump(man, open(os.path.join(HERE, "MANIFEST.json"), "w"), indent=1)
 try:
     sys.path.insert(0, os.path.join(HERE, "_deps"))
